@@ -803,18 +803,70 @@ reg(Prop("C20", "Each training position is processed exactly once per tuning epo
                       "1 <= line count < 2^63 (Go int), positive batch constants"],
          design_ref="5/C20"))
 
+def _c17_activation(prop, res, workdir):
+    """Term activation of the c17 inputs: run the extracted measurement (Model/EvalAct.v run_c17act) over
+    the generated cases and record, per evaluation term x phase x colour, in how many cases the term
+    contributed.  Goes into input_distribution as `c17:term:<group>-<mg|eg>:<white|black>`; groups that
+    are active in fewer than 1 % of the cases are listed in the notes."""
+    prefix = os.path.join(workdir, "c17")
+    if not os.path.exists(prefix + ".in") or not os.path.exists(os.path.join(V.BIN, "modelrun")):
+        return
+    m = re.search(r"\(\* mark_names: ([^*]*)\*\)", open(os.path.join(V.COQ, "Gen", "Coeffs.v")).read())
+    if not m:
+        res.notes.append("c17 activation: no mark_names line in Gen/Coeffs.v")
+        return
+    groups = m.group(1).split()
+    names = [f"{g}-{ph}:{c}" for g in groups for ph, c in (("mg", "white"), ("mg", "black"), ("eg", "white"), ("eg", "black"),
+                                                          ("mg", "colours-differ"), ("eg", "colours-differ"))]
+    names += ["kingattack-sigmoid-mg:white", "kingattack-sigmoid-mg:black", "kingattack-sigmoid-eg:white",
+              "kingattack-sigmoid-eg:black", "insufficient-material", "KNBvK-victim:white", "KNBvK-victim:black"]
+    t0 = time.time()
+    rc, err = V.run_model_sharded("c17act", prefix + ".in", prefix + ".act")
+    if rc != 0:
+        res.notes.append("c17 activation: modelrun failed: " + err[-300:])
+        return
+    counts, n = [0] * len(names), 0
+    for line in V.read_lines(prefix + ".act"):
+        toks = line.split()
+        if len(toks) != len(names):
+            continue
+        n += 1
+        for i, t in enumerate(toks):
+            if t != "0":
+                counts[i] += 1
+    for nm, c in zip(names, counts):
+        res.tags[f"c17:term:{nm}"] = c
+    # the corner-distance pseudo group exists only for the attacker's end-game accumulator in KNBvK
+    # (kings: always exactly one per side, so the two colours never differ in count)
+    expected_zero = {"CornerDist-mg:white", "CornerDist-mg:black", "CornerDist-mg:colours-differ",
+                     "PSqT.5-mg:colours-differ", "PSqT.5-eg:colours-differ"}
+    low = [f"{nm}={c}" for nm, c in zip(names, counts)
+           if nm not in expected_zero and not nm.startswith(("PieceValues", "insufficient")) and c * 100 < n]
+    res.notes.append(f"c17 term activation measured on {n} cases in {round(time.time() - t0, 1)} s; "
+                     + ("every term x phase x colour active in >= 1 % of the cases" if not low
+                        else "active in < 1 % of the cases: " + ", ".join(low)))
+    if low:
+        V.log("c17 activation gaps: " + ", ".join(low))
+
+
 reg(Prop("C17", "Static evaluation is colour-symmetric and depends only on the position", "Properties/C17.v",
-         [StreamCfg("c17", 3000, 100000, judge="judge_c17",
-                    rule="positions from G1 play-outs / G2 sparse placements incl. promoted material / G4 mutations plus "
-                         "random placements of 51 special materials (bare kings, insufficient material and its neighbours, "
-                         "KNBvK both colours, sole passers, promoted material); every case = previous evaluation + position + "
-                         "mirror image + 12 variants differing only in castling rights / ep / fullmove number / hash history, "
-                         "all evaluated on one reused board object; non-trivial = more than the two kings on the board; "
-                         "distinct by FEN")],
+         [StreamCfg("c17", 5000, 100000, judge="judge_c17",
+                    rule="positions from G1 play-outs / G2 sparse placements incl. promoted material / G4 mutations, "
+                         "random placements of 57 special materials (bare kings, insufficient material and its neighbours, "
+                         "KNBvK both colours, sole passers, promoted material) and structured families built for one colour and "
+                         "colour-flipped with probability 1/2: king zone (sheltered king, 1-4 attackers of chosen kinds aimed at the "
+                         "zone or at safe checking squares, few other pieces; a quiet bishops+knights mode that makes the END-GAME "
+                         "king-attack score positive), supported knight outposts, connected rooks; every case = previous evaluation + "
+                         "position + mirror image + 12 variants differing only in castling rights / ep / fullmove number / hash history, "
+                         "all evaluated on one reused board object; non-trivial = more than the two kings on the board; distinct by FEN. "
+                         "Term activation (which evaluation term contributed for which colour to which phase accumulator, and whether the "
+                         "sigmoid of each king-attack score is non-zero) is MEASURED on every run with the extracted model "
+                         "(Model/EvalAct.v) and reported as c17:term:* in input_distribution; terms active in < 1 % of the cases are "
+                         "listed in the notes")],
          trusted=["hooks eval/export_verif.go (VerifSigm, VerifSideOfBoard, VerifInsufficientMat), board/export_verif.go (snapshot/restore)",
                   "sliding and leaper attacks are the geometric definitions of Spec/Geometry.v (tied to the engine's magic tables by C12 and, end to end, by this stream)"],
          assumptions=["board words < 2^64, exactly one king per side, knights and bishops belong to a colour (fragment of the representation invariant; part of `valid`)"],
-         design_ref="5/C17"))
+         extra=_c17_activation, design_ref="5/C17"))
 
 reg(Prop("C05", "Pseudo-legality test accepts exactly the moves the generator emits", ["Properties/C05.v", "Properties/C05_closed.v"],
          [StreamCfg("c05", 1000, 50000, judge="judge_c05",
